@@ -160,6 +160,9 @@ type Template struct {
 	EnvVars  map[string]string // the environment's `vars`
 	EnvDefs  map[string]string // the environment's `defaults`
 	Class    string            // input class for the coverage counts
+	// Prelude: templates loaded (once each, sequentially) in the same process right before this
+	// one - the load history the verdict must not depend on
+	Prelude []*Template
 }
 
 func (t *Template) clone() *Template {
